@@ -84,3 +84,155 @@ Example C02_example :
   /\ sort_order exB = sort_order exA
   /\ exec_history [exA; exB; exA] empty_cache = map (fun g => strip (execute g empty_cache)) [exA; exB; exA].
 Proof. vm_compute. repeat split. Qed.
+
+(** ---- insertion-order independence of [generate], end to end ---- *)
+From Elfi Require Import Graph.Denote Proofs.C03_EndToEnd Proofs.C03_Twins Proofs.C03_ModelOk Proofs.C02_Insertion.
+From Elfi Require Graph.Determinism.
+
+(** Two builds of one model that differ only in the ORDER in which the nodes, the edges and the
+    observed data were inserted ([same_model]: the three lists are permutations) give the same
+    [ElfiModel.generate] result through compile (five compilers incl. twins and the reduction) ->
+    load -> execute: syntactically equal output values AND the same order of operation calls (hence
+    the same sequence of draws from the single batch generator).  Hypotheses: the first build is
+    well-formed ([wfsrc]), the supplied values have distinct non-reserved keys, the requested outputs
+    are nodes or twins ([outputs_wf]), and the parameters on the incoming edges of each node are
+    pairwise distinct ([params_distinct]: ELFI numbers positional parents consecutively and keyword
+    parents have distinct names; without it the positional order of equal indices IS the insertion
+    order, see [C02_params_distinct_needed]). *)
+Theorem C02_generate_insertion_independent :
+  forall src src' outs W out log out' log',
+    wfsrc src -> same_model src src' ->
+    NoDup (map fst W) -> (forall k, In k (map fst W) -> ~ In k inames) -> outputs_wf src outs ->
+    params_distinct src ->
+    generate src outs W = Ok (out, log) -> generate src' outs W = Ok (out', log') ->
+    out = out' /\ log = log'.
+Proof. exact generate_insertion_independent. Qed.
+Print Assumptions C02_generate_insertion_independent.
+
+(** The user-level meaning of every node and twin is insertion-order independent. *)
+Theorem C02_meaning_insertion_independent :
+  forall src src' W o,
+    wfsrc src -> same_model src src' -> params_distinct src -> den_name src W o = den_name src' W o.
+Proof. intros. now apply den_name_perm. Qed.
+Print Assumptions C02_meaning_insertion_independent.
+
+(** The name-sorted topological order of the two loaded nets is the same list. *)
+Theorem C02_loaded_sort_order :
+  forall src src' W outs cn cn' g1 g1',
+    wfsrc src -> same_model src src' -> outputs_wf src outs ->
+    compile_outputs (s_nodes src) = Ok cn -> compile_outputs (s_nodes src') = Ok cn' ->
+    CO src cn (topo_order src) g1 -> CO src' cn' (topo_order src') g1' ->
+    c_outputs g1 = outs -> c_outputs g1' = outs ->
+    nd (compile_reduce (G4of src g1)) -> nd (compile_reduce (G4of src' g1')) ->
+    sort_order (load (wp W) (compile_reduce (G4of src g1))) = sort_order (load (wp W) (compile_reduce (G4of src' g1'))).
+Proof. exact loaded_sort_order. Qed.
+Print Assumptions C02_loaded_sort_order.
+
+(** On the correspondence interface (Graph/Determinism.v): the model's own results for the two builds
+    pass the decidable property [Determinism.ok]; hence on every case where the implementation agrees
+    with the model, the property holds of the implementation's two runs. *)
+Theorem C02_model_ok :
+  forall src src' outs,
+    wfsrc src -> same_model src src' -> outputs_wf src outs -> params_distinct src ->
+    Determinism.model_result src outs <> ImplErr -> Determinism.model_result src' outs <> ImplErr ->
+    Determinism.ok {| Determinism.d_src1 := src; Determinism.d_src2 := src'; Determinism.d_outputs := outs;
+                      Determinism.d_impl1 := Determinism.model_result src outs;
+                      Determinism.d_impl2 := Determinism.model_result src' outs |} = true.
+Proof. exact model_ok_C02. Qed.
+Print Assumptions C02_model_ok.
+
+(** Non-vacuity: a five-node model with twins (prior -> simulator with data -> two summaries ->
+    discrepancy using the observed tuple) built in two insertion orders: nodes and edges permuted
+    (also the topological order the ObservedCompiler uses differs: s1, s2 swap). *)
+Definition ins_st id st ob uo ub : sstate :=
+  {| s_output := None; s_has_op := true; s_stochastic := st; s_observable := ob; s_uses_observed := uo;
+     s_uses_batch_size := ub; s_uses_meta := false; s_parameter := false; s_opid := id |}.
+Definition insA : snet :=
+  {| s_nodes := [("mu"%string, ins_st "mu"%string true false false true);
+                 ("sim"%string, ins_st "sim"%string true true false true);
+                 ("s1"%string, ins_st "s1"%string false true false false);
+                 ("s2"%string, ins_st "s2"%string false true false false);
+                 ("d"%string, ins_st "d"%string false false true false)];
+     s_edges := [("mu"%string, "sim"%string, PInt 0); ("sim"%string, "s1"%string, PInt 0);
+                 ("sim"%string, "s2"%string, PInt 0); ("s1"%string, "d"%string, PInt 0);
+                 ("s2"%string, "d"%string, PInt 1)];
+     s_observed := [("sim"%string, VConst 7)] |}.
+Definition insB : snet :=
+  {| s_nodes := [("d"%string, ins_st "d"%string false false true false);
+                 ("s2"%string, ins_st "s2"%string false true false false);
+                 ("sim"%string, ins_st "sim"%string true true false true);
+                 ("s1"%string, ins_st "s1"%string false true false false);
+                 ("mu"%string, ins_st "mu"%string true false false true)];
+     s_edges := [("s2"%string, "d"%string, PInt 1); ("sim"%string, "s2"%string, PInt 0);
+                 ("s1"%string, "d"%string, PInt 0); ("mu"%string, "sim"%string, PInt 0);
+                 ("sim"%string, "s1"%string, PInt 0)];
+     s_observed := [("sim"%string, VConst 7)] |}.
+
+Ltac perm_split a pre l' :=
+  lazymatch l' with
+  | a :: ?r => apply (Permutation_cons_app (rev pre) r a)
+  | ?b :: ?r => perm_split a constr:(b :: pre) r
+  end.
+Ltac perm_lists :=
+  lazymatch goal with
+  | |- Permutation nil nil => apply perm_nil
+  | |- @Permutation ?T (?a :: _) ?l' => perm_split a constr:(@nil T) l'; cbn [rev app]; perm_lists
+  end.
+
+Lemma insAB_same_model : same_model insA insB.
+Proof. unfold same_model, insA, insB. cbn [s_nodes s_edges s_observed]. repeat split; perm_lists. Qed.
+
+Example C02_generate_insertion_independent_example :
+  wfsrc_b insA = true /\ outputs_wf_b insA ["d"%string] = true /\ params_distinct_b insA = true
+  /\ same_model insA insB
+  /\ topo_order insA <> topo_order insB
+  /\ generate insA ["d"%string] [] = generate insB ["d"%string] []
+  /\ match generate insA ["d"%string] [] with
+     | Ok (out, log) =>
+         List.length out = 1%nat
+         /\ log = ["_s2_observed"; "_s1_observed"; "_d_observed"; "mu"; "sim"; "s1"; "s2"; "d"]%string
+     | Err _ => False
+     end.
+Proof.
+  split; [vm_compute; reflexivity|]. split; [vm_compute; reflexivity|]. split; [vm_compute; reflexivity|].
+  split; [exact insAB_same_model|]. split; [vm_compute; discriminate|].
+  split; [vm_compute; reflexivity|]. vm_compute. split; reflexivity.
+Qed.
+
+(** The theorem instantiated on the two builds (hypotheses through the decidable forms). *)
+Example C02_generate_insertion_independent_instance :
+  forall out log out' log',
+    generate insA ["d"%string] [] = Ok (out, log) -> generate insB ["d"%string] [] = Ok (out', log') ->
+    out = out' /\ log = log'.
+Proof.
+  intros out log out' log'.
+  assert (Hwf : wfsrc insA) by (apply wfsrc_b_sound; vm_compute; reflexivity).
+  apply (C02_generate_insertion_independent insA insB ["d"%string] [] out log out' log' Hwf insAB_same_model).
+  - constructor.
+  - intros k [].
+  - apply (outputs_wf_b_sound _ _ (wf_nodup _ Hwf)). vm_compute. reflexivity.
+  - apply params_distinct_b_sound. vm_compute. reflexivity.
+Qed.
+
+(** [params_distinct] is needed: with two positional parents carrying the SAME index (which ELFI's
+    node constructors never produce) the argument order is the edge insertion order. *)
+Definition dupA : snet :=
+  {| s_nodes := s_nodes insA;
+     s_edges := [("mu"%string, "sim"%string, PInt 0); ("sim"%string, "s1"%string, PInt 0);
+                 ("sim"%string, "s2"%string, PInt 0); ("s1"%string, "d"%string, PInt 0);
+                 ("s2"%string, "d"%string, PInt 0)];
+     s_observed := s_observed insA |}.
+Definition dupB : snet :=
+  {| s_nodes := s_nodes insA;
+     s_edges := [("mu"%string, "sim"%string, PInt 0); ("sim"%string, "s1"%string, PInt 0);
+                 ("sim"%string, "s2"%string, PInt 0); ("s2"%string, "d"%string, PInt 0);
+                 ("s1"%string, "d"%string, PInt 0)];
+     s_observed := s_observed insA |}.
+Example C02_params_distinct_needed :
+  wfsrc_b dupA = true /\ same_model dupA dupB /\ params_distinct_b dupA = false
+  /\ generate dupA ["_d_observed"%string] [] <> generate dupB ["_d_observed"%string] [].
+Proof.
+  split; [vm_compute; reflexivity|]. split.
+  - unfold same_model, dupA, dupB, insA. cbn [s_nodes s_edges s_observed]. repeat split; perm_lists.
+  - split; [vm_compute; reflexivity | vm_compute; discriminate].
+Qed.
